@@ -191,6 +191,20 @@ func Spec(big int) []Node {
 		{Rel: "frac/sub/g.txt", Kind: "file", Mode: 0o644, Data: text("g", 60)},
 		{Rel: "frac/l", Kind: "symlink", Target: "f75.txt"},
 	}
+	// a changelog with an entry that has no date (and one without packager)
+	ns = append(ns, Node{Rel: "changelog-undated.yaml", Kind: "file", Mode: 0o644, Data: []byte(`- semver: "1.1.0"
+  date: "2009-12-08T22:00:00Z"
+  packager: "Jane Roe <jane@example.com>"
+  changes:
+    - note: "dated entry"
+- semver: "1.0.0"
+  packager: "Jane Roe <jane@example.com>"
+  changes:
+    - note: "entry without a date"
+- semver: "0.9.0"
+  changes:
+    - note: "entry without date and packager"
+`)})
 	// a long changelog: its text is many times larger than its gzip form
 	ns = append(ns, Node{Rel: "changelog-big.yaml", Kind: "file", Mode: 0o644, Data: []byte(BigChangelog())})
 	// a root file system image: packaged as a tree at "/", most of its directories belong to the distribution's
